@@ -235,8 +235,8 @@ def encResetUnrepaired (s : Enc) : Enc :=
 /-! ## Settings -/
 
 /-- The members that hold what the application configured (they are written by the OPUS_SET_*
-    requests and by nothing in `encReset`).  `forceChannels` is included although the encoder itself
-    may overwrite it (opus_encoder.c:1687): the application reads it back through its getter. -/
+    requests and by nothing in `encReset` or `encodeStep`; until /repo 0b... the encoder itself could
+    overwrite `force_channels` in a multi-frame packet, that store is gone). -/
 structure Settings where
   application : Int
   forceChannels : Int
@@ -504,6 +504,52 @@ def encSet (s : Enc) (req v : Int) : Option Enc :=
   | some k => encSetK s k v
   | none => none
 
+/-! ## "Carrying the same settings", by requests -/
+
+/-- The request sequence an application issues to give a new encoder the settings `c`
+    (one OPUS_SET_* per setting; OPUS_SET_APPLICATION first, which is accepted because `first` is set). -/
+def settingsRequests (c : Settings) : List (SetReq × Int) :=
+  [(.application, c.application), (.bitrate, c.userBitrateBps), (.forceChannels, c.forceChannels),
+   (.maxBandwidth, c.maxBandwidth), (.bandwidth, c.userBandwidth), (.dtx, c.useDtx), (.complexity, c.complexity),
+   (.inbandFec, c.fecConfig), (.packetLoss, c.packetLossPercentage), (.vbr, c.useVbr),
+   (.vbrConstraint, c.vbrConstraint), (.signal, c.signalType), (.lsbDepth, c.lsbDepth),
+   (.frameDuration, c.variableDuration), (.predictionDisabled, c.reducedDependency),
+   (.phaseInversionDisabled, c.celtDisableInv), (.forceMode, c.userForcedMode), (.lfe, c.lfe)]
+
+/-- Issue the requests in order; `none` as soon as one is refused. -/
+def replay (s : Enc) : List (SetReq × Int) → Option Enc
+  | [] => some s
+  | (k, v) :: rest => match encSetK s k v with
+    | some s' => replay s' rest
+    | none => none
+
+/-- Settings a sequence of accepted requests can leave behind: every value inside the range its request
+    accepts (bit-rates already clamped), and the members one request stores together agree. -/
+structure SettingsOk (channels : Int) (c : Settings) : Prop where
+  app : c.application = 2048 ∨ c.application = 2049 ∨ c.application = 2051
+  anApp : c.analysisApp = c.application
+  rate : c.userBitrateBps = OPUS_AUTO ∨ c.userBitrateBps = -1 ∨ (500 ≤ c.userBitrateBps ∧ c.userBitrateBps ≤ 300000 * channels)
+  fc : c.forceChannels = OPUS_AUTO ∨ (1 ≤ c.forceChannels ∧ c.forceChannels ≤ channels)
+  maxBw : 1101 ≤ c.maxBandwidth ∧ c.maxBandwidth ≤ 1105
+  bw : c.userBandwidth = OPUS_AUTO ∨ (1101 ≤ c.userBandwidth ∧ c.userBandwidth ≤ 1105)
+  dtx : c.useDtx = 0 ∨ c.useDtx = 1
+  cx : 0 ≤ c.complexity ∧ c.complexity ≤ 10
+  celtCx : c.celtComplexity = c.complexity
+  fec : 0 ≤ c.fecConfig ∧ c.fecConfig ≤ 2
+  fecFlag : c.useInBandFEC = if c.fecConfig ≠ 0 then 1 else 0
+  loss : 0 ≤ c.packetLossPercentage ∧ c.packetLossPercentage ≤ 100
+  celtLoss : c.celtLossRate = c.packetLossPercentage
+  vbr : c.useVbr = 0 ∨ c.useVbr = 1
+  vbrc : c.vbrConstraint = 0 ∨ c.vbrConstraint = 1
+  sig : c.signalType = OPUS_AUTO ∨ c.signalType = 3001 ∨ c.signalType = 3002
+  lsb : 8 ≤ c.lsbDepth ∧ c.lsbDepth ≤ 24
+  dur : 5000 ≤ c.variableDuration ∧ c.variableDuration ≤ 5009
+  pred : c.reducedDependency = 0 ∨ c.reducedDependency = 1
+  inv : c.celtDisableInv = 0 ∨ c.celtDisableInv = 1
+  fm : c.userForcedMode = OPUS_AUTO ∨ (MODE_SILK_ONLY ≤ c.userForcedMode ∧ c.userForcedMode ≤ MODE_CELT_ONLY)
+  celtLfe : c.celtLfe = c.lfe
+  dred : c.useDRED = 0                  -- no request stores useDRED in this build (OPUS_SET_DRED_DURATION is not compiled)
+
 /-! ## One `opus_encode*` call as a footprint -/
 
 /-- Arguments of one encode call: frame size, byte budget, the API's lsb depth / float flag, and
@@ -545,7 +591,6 @@ structure PhaseA where
     (`silkRan = false`: SILK state and the SILK outputs in `silk_mode` keep their values). -/
 structure PhaseB where
   streamChannels : Int
-  forceChannels : Int            -- :1687 may force mono
   mode : Int
   bandwidth : Int
   autoBandwidth : Int
@@ -612,7 +657,7 @@ def encodeStep (O : Oracles) (s : Enc) (x : Inp) : Enc × Out :=
         analysis := a.analysis, peakSignalEnergy := a.peakSignalEnergy, voiceRatio := a.voiceRatio,
                widthMem := a.widthMem, bitrateBps := a.bitrateBps,
                detectedBandwidth := b.detectedBandwidth, streamChannels := b.streamChannels,
-               forceChannels := b.forceChannels, mode := b.mode, bandwidth := b.bandwidth,
+               mode := b.mode, bandwidth := b.bandwidth,
                autoBandwidth := b.autoBandwidth, silkMode := sm,
                silkState := if ran then b.silkState else s.silkState,
                celtState := b.celtState,
